@@ -130,18 +130,27 @@ impl Package {
             let file = file?;
             let file_path = extraction_path(dest.as_ref(), &file.metadata.path)?;
 
+            let parent = file_path.parent().unwrap_or(dest.as_ref());
+
             let perms = fs::Permissions::from_mode(file.metadata.mode.permissions().into());
             match file.metadata.mode {
                 FileMode::Dir { .. } => {
+                    ensure_no_symlinks(dest.as_ref(), &file_path)?;
                     fs::create_dir_all(&file_path)?;
                     fs::set_permissions(&file_path, perms)?;
                 }
                 FileMode::Regular { .. } => {
+                    ensure_no_symlinks(dest.as_ref(), parent)?;
+                    // replace a symbolic link of the same name instead of writing through it
+                    if is_symlink(&file_path) {
+                        fs::remove_file(&file_path)?;
+                    }
                     let mut f = fs::File::create(&file_path)?;
                     f.write_all(&file.content)?;
                     fs::set_permissions(&file_path, perms)?;
                 }
                 FileMode::SymbolicLink { .. } => {
+                    ensure_no_symlinks(dest.as_ref(), parent)?;
                     // broken symlinks (common for debuginfo handling) are perceived as not existing by "exists()"
                     if file_path.exists() || file_path.symlink_metadata().is_ok() {
                         fs::remove_file(&file_path)?;
@@ -483,6 +492,30 @@ fn extraction_path(dest: &Path, path: &Path) -> Result<PathBuf, Error> {
         }
     }
     Ok(target)
+}
+
+fn is_symlink(path: &Path) -> bool {
+    path.symlink_metadata()
+        .map(|metadata| metadata.file_type().is_symlink())
+        .unwrap_or(false)
+}
+
+/// Fail if `path` (somewhere below `dest`) is reached through a symbolic link.
+///
+/// Links created from the package could otherwise redirect later entries of the same package
+/// to places outside of `dest`.
+fn ensure_no_symlinks(dest: &Path, path: &Path) -> Result<(), Error> {
+    let mut current = dest.to_path_buf();
+    for component in path.strip_prefix(dest).unwrap_or(path).components() {
+        current.push(component);
+        if is_symlink(&current) {
+            return Err(Error::InvalidDestinationPath {
+                path: path.to_string_lossy().to_string(),
+                desc: "path leads through a symbolic link",
+            });
+        }
+    }
+    Ok(())
 }
 
 #[derive(Clone, Debug, PartialEq)]
